@@ -10,7 +10,7 @@ use serde_json::{json, Value as J};
 
 pub static PROP: Prop = Prop {
     id: "C12",
-    rule: "cases: programs from the flat generator (all 32 infix operators, `not OP`, prefix/postfix over atoms and parenthesised groups, conditionals in operand/condition/branch position, strings containing either quote, calls, lists, maps with conditional keys, statement chains; names are never operator words; in a third of the cases a user operator vh_rt is re-registered with another precedence (0, 1, 25 ... 205) and associativity first and used heavily, together with a user postfix operator and a user prefix operator that are spelled as words (inside calls, lists, maps and statement chains a word operator is directly followed by a separator); a sixth of those are chains of vh_rt followed by an operator-like token that is not infix), plus exhaustive placements: every infix operator as parenthesised left and right child of every other (32x32x2), `not OP` forms under every operator, prefix and postfix operators over parenthesised infix/conditional/prefix/postfix operands, conditionals as operand, condition and branch. Oracle: t = parse(s); s2 = t.expr(); parse(s2) must be Ok(t2) with t2 == t (structural, numbers by mantissa and scale); t2.expr() == s2. Non-trivial: the tree has a compound node (infix, not-infix, conditional, prefix, postfix) directly under an operator or conditional node, or a string containing a quote; distinct by tree skeleton.",
+    rule: "cases: programs from the flat generator (all 32 infix operators, `not OP`, prefix/postfix over atoms and parenthesised groups, conditionals in operand/condition/branch position, strings containing either quote, calls, lists, maps with conditional keys, statement chains; names are never operator words; in a third of the cases a user operator vh_rt is re-registered with another precedence (0, 1, 25 ... 205, and 20, 60, 110, 120, 200 - the levels of built-in operators) and associativity first and used heavily, together with a user postfix operator and a user prefix operator that are spelled as words (inside calls, lists, maps and statement chains a word operator is directly followed by a separator); a sixth of those are chains of vh_rt followed by an operator-like token that is not infix), plus exhaustive placements: every infix operator as parenthesised left and right child of every other (32x32x2), `not OP` forms under every operator, prefix and postfix operators over parenthesised infix/conditional/prefix/postfix operands, conditionals as operand, condition and branch. Oracle: t = parse(s); s2 = t.expr(); parse(s2) must be Ok(t2) with t2 == t (structural, numbers by mantissa and scale); t2.expr() == s2. Non-trivial: the tree has a compound node (infix, not-infix, conditional, prefix, postfix) directly under an operator or conditional node, or a string containing a quote; distinct by tree skeleton.",
     assumptions: &["programs come from the generator's well-formed grammar; a program the engine rejects is counted as excluded (C02 reports it)"],
     budget,
     setup: noop_setup,
@@ -175,7 +175,9 @@ fn case(src: &mut Src, st: &mut Stats, _env: &Env) -> CaseResult {
     if dynamic {
         // a user operator whose precedence / associativity changes from case to case: the
         // rendering must follow the registration made last
-        let prec = *src.choose(&[115i64, 45, 125, 55, 25, 205, 65, 1, 0]);
+        // also the precedence of a built-in level, with either associativity: an operator that groups
+        // to the right beside `*` or `+`, one that groups to the left beside the assignments
+        let prec = *src.choose(&[115i64, 45, 125, 55, 25, 205, 65, 1, 0, 120, 110, 20, 60, 200]);
         let right = src.chance(1, 2);
         register_rt(prec, right);
         tab.infix.insert("vh_rt".to_string(), (prec, right));
